@@ -125,6 +125,7 @@ type Engine struct {
 	runesFlag int
 	acquired map[string]bool
 	knownActive map[string]bool
+	stableLoads map[string]string
 }
 
 func (e *Engine) note(f string, a ...any) {
